@@ -491,7 +491,17 @@ func bigFloat64Exact(r *rand.Rand) *big.Float {
 	return new(big.Float).SetFloat64(f)
 }
 
+// finiteAPD: a decimal for a Go value; despite the name, one in eight is a non-finite form (infinity of either sign,
+// quiet or signalling NaN), which a marshal/unmarshal round trip has to preserve as well.
 func finiteAPD(r *rand.Rand) *apd.Decimal {
+	if r.Intn(8) == 0 {
+		d := new(apd.Decimal)
+		d.Form = []apd.Form{apd.Infinite, apd.Infinite, apd.NaN, apd.NaNSignaling}[r.Intn(4)]
+		if d.Form == apd.Infinite {
+			d.Negative = r.Intn(2) == 0
+		}
+		return d
+	}
 	for {
 		d := APDValue(r, true)
 		if d.Form == apd.Finite {
@@ -639,7 +649,7 @@ func veq(a, b reflect.Value, path string) (string, string) {
 		return fail("big floats differ: %v vs %v", x.Text('p', 0), y.Text('p', 0))
 	case apd.Decimal:
 		y := b.Interface().(apd.Decimal)
-		if x.Form == y.Form && (x.Form != apd.Finite || x.Cmp(&y) == 0) {
+		if x.Form == y.Form && (x.Form == apd.Finite && x.Cmp(&y) == 0 || x.Form == apd.Infinite && x.Negative == y.Negative || x.Form == apd.NaN || x.Form == apd.NaNSignaling) {
 			return "", ""
 		}
 		return fail("decimals differ: %v vs %v", x.String(), y.String())
